@@ -814,6 +814,190 @@ def genCase (idx : Nat) (thorough : Bool) : Gen (List Case) := do
     let cs := mkPair id ("pos/" ++ shapeName t) t t a b ctx (sa.kf ++ sb.kf)
     pure (if wantRep then cs ++ [mkRep (id ++ "r") ("rep/" ++ shapeName t) t t a b] else cs)
 
+/-! ## transitions: construction paths through a larger collection and back
+
+A dictionary key going from three values to two, two to one (the stored value set has to collapse to the plain
+value), one to none (the key disappears; the last key leaves `{}`); a relation going to one row / one column /
+no row; a union set losing a bucket (the remaining bucket has to become the plain string / array / dictionary /
+relation / generic set).  Each result is compared with its literal spelling under all pair observables. -/
+
+abbrev Atom := String × V
+
+def atomPool : List Atom :=
+  [("1", .num 1), ("2", .num 2), ("3", .num 3), ("4", .num 4), ("0", .num 0), ("'a'", (Lit.str 0 [97]).den),
+   ("'bc'", (Lit.str 0 [98, 99]).den), ("(a: 1)", V.mkTup [("a", .num 1)]), ("{}", .set []),
+   ("[7]", (Lit.arr 0 [some (.num 7)]).den), ("true", V.tt), ("{5, 6}", V.mkSet [.num 5, .num 6]), ("()", .tup [])]
+
+def intPool : List Atom := [("1", .num 1), ("2", .num 2), ("3", .num 3), ("4", .num 4), ("0", .num 0), ("5", .num 5)]
+
+/-- a dictionary state: keys with their values (one or several) -/
+abbrev DState := List (Atom × List Atom)
+
+namespace Trans
+
+def entries (st : DState) : List (Atom × Atom) := st.flatMap (fun kv => kv.2.map (fun v => (kv.1, v)))
+def entryV (e : Atom × Atom) : V := V.mkTup [("@", e.1.2), ("@value", e.2.2)]
+def denD (st : DState) : V := V.mkSet ((entries st).map entryV)
+def tupSrc (e : Atom × Atom) : String := "(@: " ++ e.1.1 ++ ", @value: " ++ e.2.1 ++ ")"
+
+def relLit (st : DState) : Gen String := do
+  let sh ← shuffle (entries st)
+  if (← chance 1 2) then
+    pure ("{|@, @value| " ++ ", ".intercalate (sh.map (fun e => "(" ++ e.1.1 ++ ", " ++ e.2.1 ++ ")")) ++ "}")
+  else
+    pure ("{|@value, @| " ++ ", ".intercalate (sh.map (fun e => "(" ++ e.2.1 ++ ", " ++ e.1.1 ++ ")")) ++ "}")
+def setLit (st : DState) : Gen String := do
+  let sh ← shuffle (entries st)
+  pure ("{" ++ ", ".intercalate (sh.map tupSrc) ++ "}")
+def sugar (es : List (Atom × Atom)) : String :=
+  "{" ++ ", ".intercalate (es.map (fun e => e.1.1 ++ ": " ++ e.2.1)) ++ "}"
+/-- `d1 | d2 | …`: layer `i` holds the `i`-th value of every key that has one -/
+def layered (st : DState) : Gen String := do
+  let depth := (st.map (fun kv => kv.2.length)).foldl max 0
+  let layers := (List.range depth).map (fun i => st.filterMap (fun kv => (kv.2[i]?).map (fun v => (kv.1, v))))
+  let srcs ← layers.mapM (fun l => do pure (sugar (← shuffle l)))
+  match srcs with
+  | [] => pure "{}"
+  | [x] => pure x
+  | _ => pure ("(" ++ " | ".intercalate srcs ++ ")")
+def withSrc (st : DState) : Gen String := do
+  match (entries st).reverse with
+  | e :: rest =>
+    let st' : DState := rest.reverse.map (fun p => (p.1, [p.2]))
+    pure ("(" ++ (← setLit st') ++ " with " ++ tupSrc e ++ ")")
+  | [] => pure "{}"
+
+/-- the literal spelling of a state -/
+def canonLit (st : DState) : Gen String := do
+  if st.isEmpty then pure "{}"
+  else if st.all (fun kv => kv.2.length == 1) then
+    pure (sugar (← shuffle (entries st)))
+  else relLit st
+
+/-- some spelling of a (possibly multi-valued) state -/
+def anySrc (st : DState) : Gen String := do
+  match (← rand 5) with
+  | 0 => relLit st
+  | 1 => setLit st
+  | 2 => withSrc st
+  | _ => layered st
+
+def removeEntry (st : DState) (k v : Atom) : DState :=
+  (st.map (fun kv => if kv.1.1 == k.1 then (kv.1, kv.2.filter (fun w => w.1 != v.1)) else kv)).filter
+    (fun kv => !kv.2.isEmpty)
+
+/-- a path that removes the entry `(k, v)` from the state `sup` -/
+def removal (op : Nat) (sup : DState) (k v : Atom) : Gen String := do
+  let s ← anySrc sup
+  let t := tupSrc (k, v)
+  match op % 4 with
+  | 0 => pure ("(" ++ s ++ " without " ++ t ++ ")")
+  | 1 => pure ("(" ++ s ++ " &~ {" ++ t ++ "})")
+  | 2 => pure ("(" ++ s ++ " where .@ != " ++ k.1 ++ " || .@value != " ++ v.1 ++ ")")
+  | _ => pure ("((" ++ s ++ " | {(@: " ++ k.1 ++ ", @value: 99)}) &~ {" ++ t ++ ", (@: " ++ k.1 ++ ", @value: 99)})")
+
+end Trans
+
+open Trans in
+/-- one transition case; `i` selects the family so that every family and count transition is hit on every run -/
+def genTransition (i : Nat) : Gen (String × V × String × String) := do
+  let fam := i % 8
+  let op := i / 24   -- cycles through the removal operators per family and count transition
+  if fam < 4 then
+    -- dictionaries: the key `k` goes from `n` to `n - 1` values (n = 3, 2, 1), next to 0..2 other keys
+    let n := 3 - (i / 8) % 3
+    let ints ← chance 1 3
+    let pool ← shuffle (if ints then intPool else atomPool)
+    let k := pool.getD 0 ("1", .num 1)
+    let vals ← shuffle (if ints then intPool else atomPool)
+    let kvals := vals.take n
+    let nOther ← rand 3
+    let others : DState ← (List.range nOther).mapM (fun (j : Nat) => do
+      let m ← pick [1, 1, 2]
+      let vs ← shuffle (if ints then intPool else atomPool)
+      pure (pool.getD (j + 1) ("2", .num 2), vs.take m))
+    let sup : DState := (k, kvals) :: others
+    let v := kvals.getD 0 ("1", .num 1)
+    let res := removeEntry sup k v
+    if fam == 3 && ints then
+      -- `=>` remapping: the extra value is mapped onto one that is already there (or onto a fresh one)
+      let w := kvals.getD 1 v
+      let extra : Atom := (toString (numOf w.2 + 10), .num (numOf w.2 + 10))
+      let sup' : DState := (k, extra :: kvals.drop 1) :: others
+      let s ← anySrc sup'
+      let src := "(" ++ s ++ " => (@: .@, @value: .@value % 10))"
+      let res' : DState := if n == 1 then [(k, [((toString (numOf v.2)), v.2)])] ++ others else (k, kvals.drop 1) :: others
+      -- with n = 1 the only value is `extra`, which maps to `w` = `v`
+      pure (src, denD res', ← canonLit res', "dict/remap")
+    else if fam == 2 && n ≥ 2 then
+      -- two removals in a row (3 → 1, 2 → 0)
+      let v2 := kvals.getD 1 v
+      let s1 ← removal op sup k v
+      let res2 := removeEntry res k v2
+      let src := "(" ++ s1 ++ " without " ++ tupSrc (k, v2) ++ ")"
+      pure (src, denD res2, ← canonLit res2, s!"dict/{n}to{n - 2}")
+    else
+      pure (← removal op sup k v, denD res, ← canonLit res, s!"dict/{n}to{n - 1}")
+  else if fam < 6 then
+    -- relations: rows and columns go away
+    let cols ← pick [["a"], ["a", "b"], ["a", "b", "c"]]
+    let nrows := 1 + (i / 8) % 3
+    let vals ← shuffle atomPool
+    let rows : List (List Atom) := (List.range nrows).map (fun (r : Nat) =>
+      (List.range cols.length).map (fun (c : Nat) => vals.getD ((r * 2 + c) % vals.length) ("1", .num 1)))
+    let extraRow : List Atom := (List.range cols.length).map (fun (c : Nat) => vals.getD ((7 + c) % vals.length) ("9", .num 9))
+    let rowSrc (row : List Atom) : String := "(" ++ ", ".intercalate (row.map (·.1)) ++ ")"
+    let tupRow (row : List Atom) : String :=
+      "(" ++ ", ".intercalate ((cols.zip row).map (fun p => p.1 ++ ": " ++ p.2.1)) ++ ")"
+    let lit (rs : List (List Atom)) : Gen String := do
+      if rs.isEmpty then pure "{}" else
+      let sh ← shuffle rs
+      if (← chance 1 2) then pure ("{|" ++ ", ".intercalate cols ++ "| " ++ ", ".intercalate (sh.map rowSrc) ++ "}")
+      else pure ("{" ++ ", ".intercalate (sh.map tupRow) ++ "}")
+    let denR (cs : List String) (rs : List (List Atom)) : V :=
+      V.mkSet (rs.map (fun row => V.mkTup ((cs.zip row).map (fun p => (p.1, p.2.2)))))
+    if fam == 4 then
+      -- drop rows: `nrows` down to `nrows - 1` (1 → `{}`)
+      let gone := rows.getD 0 extraRow
+      let rest := rows.drop 1
+      let s ← lit rows
+      let src ← match op % 3 with
+        | 0 => pure ("(" ++ s ++ " without " ++ tupRow gone ++ ")")
+        | 1 => pure ("(" ++ s ++ " &~ {" ++ tupRow gone ++ "})")
+        | _ => pure ("((" ++ s ++ " | {" ++ tupRow extraRow ++ "}) &~ {" ++ tupRow gone ++ ", " ++ tupRow extraRow ++ "})")
+      let restDistinct := rest.filter (fun r => rowSrc r != rowSrc gone)
+      pure (src, denR cols restDistinct, ← lit restDistinct.eraseDups, s!"rel/rows{nrows}to{nrows - 1}")
+    else
+      -- project to the first column (rows may merge)
+      let s ← lit rows
+      let src := "(" ++ s ++ " => (a: .a))"
+      let proj := (rows.map (fun r => r.take 1)).eraseDups
+      let shp ← shuffle proj
+      let litp := "{|a| " ++ ", ".intercalate (shp.map (fun r => "(" ++ ", ".intercalate (r.map (·.1)) ++ ")")) ++ "}"
+      pure (src, denR ["a"] proj, litp, s!"rel/cols{cols.length}to1")
+  else
+    -- union sets: two buckets, all members of one of them go away
+    let bucketsAll : List (List Atom × String) :=
+      [([("1", .num 1), ("{}", .set []), ("'a'", (Lit.str 0 [97]).den)], "{1, {}, 'a'}"),
+       ([("(a: 1)", V.mkTup [("a", .num 1)]), ("(a: 2)", V.mkTup [("a", .num 2)])], "{|a| (1), (2)}"),
+       ([("(@: 0, @char: 97)", V.mkTup [("@", .num 0), ("@char", .num 97)]),
+         ("(@: 1, @char: 98)", V.mkTup [("@", .num 1), ("@char", .num 98)])], "'ab'"),
+       ([("(@: 2, @item: 7)", V.mkTup [("@", .num 2), ("@item", .num 7)])], "2\\[7]"),
+       ([("(@: 1, @value: 2)", V.mkTup [("@", .num 1), ("@value", .num 2)]),
+         ("(@: 'k', @value: {})", V.mkTup [("@", (Lit.str 0 [107]).den), ("@value", .set [])])], "{1: 2, 'k': {}}"),
+       ([("(@: 0, @byte: 65)", V.mkTup [("@", .num 0), ("@byte", .num 65)])], "<<65>>"),
+       ([("(b: 1, c: 2)", V.mkTup [("b", .num 1), ("c", .num 2)])], "{(c: 2, b: 1)}")]
+    let sh ← shuffle bucketsAll
+    let keep := sh.getD 0 ([], "{}")
+    let drop := sh.getD 1 ([], "{}")
+    let all ← shuffle (keep.1 ++ drop.1)
+    let u := "{" ++ ", ".intercalate (all.map (·.1)) ++ "}"
+    let src ← match op % 3 with
+      | 0 => pure (drop.1.foldl (fun acc m => "(" ++ acc ++ " without " ++ m.1 ++ ")") u)
+      | 1 => pure ("(" ++ u ++ " &~ {" ++ ", ".intercalate (drop.1.map (·.1)) ++ "})")
+      | _ => pure ("((" ++ keep.2 ++ " | " ++ drop.2 ++ ") &~ " ++ drop.2 ++ ")")
+    pure (src, V.mkSet (keep.1.map (·.2)), keep.2, "union/2to1")
+
 /-- witnesses of the repaired defects and minimised past failures; always run first -/
 def corpus : List Case :=
   let s (cs : List Nat) (off : Int := 0) : V := (Lit.str off cs).den
@@ -885,6 +1069,12 @@ def corpus : List Case :=
 
 def gen (seed n : Nat) (thorough : Bool) : List Case := Id.run do
   let mut out := corpus.reverse
+  -- transitions: every family and count transition on every run
+  for i in [0:(if thorough then 960 else 144)] do
+    let ((a, v, b, stratum), _) := (genTransition i).run (seedOf seed (900000 + i))
+    let (ctx, _) := (genCtx v).run (seedOf seed (950000 + i))
+    let cs := mkPair s!"C02-t{i}" ("trans/" ++ stratum) v v a b ctx []
+    out := cs.reverse ++ out
   for i in [0:n] do
     let (cs, _) := (genCase i thorough).run (seedOf seed (200000 + i))
     out := cs.reverse ++ out
